@@ -253,6 +253,15 @@ def gen_retry(rnd, *, waits="fixed"):
     if rnd.random() < 0.4:
         steps.append({"name": "on_fail", "handler": {"for": None, "max": 1}, "in": [],
                       "acts": [{"k": "ret", "type": "StopEvent", "result": "handled"}]})
+    if rnd.random() < 0.4:
+        # queue pressure: several items compete for 1-2 workers, so an item's first attempt starts later than its arrival
+        k = rnd.randint(2, 3)
+        steps[0]["in"] = ["EvA"]
+        steps[0]["nw"] = rnd.choice([1, 1, 2])
+        steps[0]["acts"][-1] = {"k": "ret", "type": "EvB"}
+        steps.insert(0, {"name": "start", "in": ["Go"], "nw": 1, "acts": [{"k": "send", "type": "EvA", "items": [{} for _ in range(k)]}, {"k": "ret", "type": None}],
+                         "declare": ["EvA"]})
+        steps.append({"name": "sink", "in": ["EvB"], "nw": 1, "acts": [{"k": "collect", "types": ["EvB"] * k}, {"k": "ret", "type": "StopEvent", "result": "collected"}]})
     return {"family": "retry", "steps": steps, "timeout": None, "externals": [], "meta": {"n_fail": n_fail, "excs": excs, "lats": lats, "policy": pol}}
 
 
@@ -273,6 +282,9 @@ def _gen_wait_det(rnd, depth=1):
 def gen_retry_waits(rnd):
     spec = gen_retry(rnd, waits="det")
     spec["family"] = "retry_waits"
+    for st in spec["steps"]:
+        if st["name"] == "work":
+            st["nw"] = 4  # no queueing: the gap between a failure and its retry is then exactly the delay the engine applied
     return spec
 
 
